@@ -14,11 +14,12 @@ def mat(m):
     return "(" + ", ".join(tup(m[3 * i:3 * i + 3]) for i in range(3)) + ")"
 
 
-HEADER = """From Verif Require Import NdIndex Quat RotArr.
+HEADER = """From Verif Require Import NdIndex Quat RotArr Rodrigues3.
 Open Scope float_scope.
 Record case := mk { q0 : quat (T:=float); q : quat (T:=float); om : mat3 (T:=float); eu : vec3 (T:=float);
   ax3 : vec3 (T:=float); rof : quat (T:=float); ho : vec3 (T:=float);
-  q_om : quat (T:=float); q_eu : quat (T:=float); q_ho : quat (T:=float) }.
+  q_om : quat (T:=float); q_eu : quat (T:=float); q_ho : quat (T:=float);
+  ro3 : vec3 (T:=float); q_r3 : quat (T:=float) }.
 Definition m_close (m n : mat3 (T:=float)) : bool :=
   let '(a, b, c) := m in let '(x, y, z) := n in v_close a x && v_close b y && v_close c z.
 Definition ang_close (u v : vec3 (T:=float)) : bool :=
@@ -27,7 +28,12 @@ Definition scale3 (n : quat (T:=float)) : vec3 (T:=float) :=
   let '(x, y, z, w) := n in (x * w, y * w, z * w).
 Definition qnormalize (p : quat (T:=float)) : quat (T:=float) :=
   let '(a, b, c, d) := p in let n := sqrt (a*a + b*b + c*c + d*d) in (a / n, b / n, c / n, d / n).
-(* which of the nine comparisons fail: a bit mask, 0 = all agree *)
+(* three-component Rodrigues vectors are ~1e16 long at a rotation by pi, where tan(w/2) changes sign within one
+   ulp of w: compare them as the rotations they denote, (1, r) / sqrt(1 + |r|^2) up to overall sign *)
+Definition ro2q (r : vec3 (T:=float)) : quat (T:=float) :=
+  let '(x, y, z) := r in let m := sqrt (1 + (x * x + y * y + z * z)) in (1 / m, x / m, y / m, z / m).
+Definition ro3_close (u v : vec3 (T:=float)) : bool := q_close_pm (ro2q u) (ro2q v).
+(* which of the comparisons fail *)
 Definition diag (c : case) : list bool :=
   [ m_close (qu2om FOps (q c)) (om c);
     ang_close (qu2eu FOps (q c)) (eu c);
@@ -36,17 +42,19 @@ Definition diag (c : case) : list bool :=
     v_close (qu2ho FOps (q c)) (ho c);
     q_close (om2qu FOps (om c)) (q_om c);
     q_close (eu2qu FOps (eu c)) (q_eu c);
-    q_close (qnormalize (ax2qu FOps (ho2ax FOps (ho c)))) (q_ho c) ].
+    q_close (qnormalize (ax2qu FOps (ho2ax FOps (ho c)))) (q_ho c);
+    ro3_close (to_ro3 FOps (q0 c) (q c)) (ro3 c);
+    q_close (from_ro3 FOps (ro3 c)) (q_r3 c) ].
 Definition ok (c : case) : bool := forallb (fun b => b) (diag c).
 """
 
 FIELDS = ["to_matrix", "to_euler", "to_axes_angles", "to_rodrigues(frank)", "to_homochoric",
-          "from_matrix", "from_euler", "from_homochoric"]
+          "from_matrix", "from_euler", "from_homochoric", "to_rodrigues()", "from_rodrigues(ro)"]
 
 
 def case_coq(c):
     return (f"mk {tup(c['q'])} {tup(c['qn'])} {mat(c['om'])} {tup(c['eu'])} {tup(c['ax3'])} {tup(c['rof'])} "
-            f"{tup(c['ho'])} {tup(c['q_om'])} {tup(c['q_eu'])} {tup(c['q_ho'])}")
+            f"{tup(c['ho'])} {tup(c['q_om'])} {tup(c['q_eu'])} {tup(c['q_ho'])} {tup(c['ro3'])} {tup(c['q_r3'])}")
 
 
 def correspond(ck, cases, chunk=200):
@@ -78,13 +86,13 @@ def run(tier, seed):
     ck = Check(PROP, tier, seed)
     ck.trusted += ["translator tools/translate (python ast -> Gallina over Ops)",
                    "FInst float evaluator (correspondence sensitivity only)",
-                   "public wrappers to_*/from_* are thin (unit-normalise then kernel): covered by correspondence, not by theorems"]
+                   "public wrappers to_*/from_* are thin (unit-normalise then kernel): covered by correspondence, not by theorems; to_rodrigues()/from_rodrigues(ro) (no kernel) are modelled by hand in Model/Rodrigues3.v"]
     ck.assumptions += ["theorems are over exact reals with the kernels' thresholds modelled exactly; inputs inside the "
                        "threshold bands (1e-9 .. 1e-8) are excluded by explicit hypotheses",
                        "ho2ax (degree-20 fitted polynomial) has no exact-inverse theorem; correspondence + oracle only"]
     if not ck.step_sanity():
         return ck.finish()
-    ck.step_prove(["quatkernels", "conversions"], "Props/C01.v", extra=["Model/RotArr.vo"])
+    ck.step_prove(["quatkernels", "conversions"], "Props/C01.v", extra=["Model/RotArr.vo", "Model/Rodrigues3.vo"])
     n = 500 if tier == "quick" else 8000
     out = run_impl("c01.py", {"seed": seed, "n": n})
     cases = out["cases"]
